@@ -157,6 +157,7 @@ func runC12(p *load.Program, r *oblig.Report) {
 	c12SortSearch(p, r)
 	c12Refresher(p, r)
 	c12PoolUpdateOrder(p, r)
+	c12SplitGroups(p, r)
 	c12LegacyNegotiate(p, r, "C12.R2 version-selection table")
 }
 
@@ -1077,4 +1078,63 @@ func c12PoolUpdateOrder(p *load.Program, r *oblig.Report) {
 		}
 	}
 	r.Check(where == "", rule, "kafka.(*connPool).update", p.Pos(upd.Pos()), "groups of removed or moved brokers are deleted before the new groups are installed", where)
+}
+
+// c12SplitGroups: R9 — a DescribeGroups request is routed by its first group (Group() returns Groups[0]); Split makes
+// one sub-request per group so that each goes to that group's coordinator. Every sub-request therefore names exactly
+// one group, the one of its iteration.
+func c12SplitGroups(p *load.Program, r *oblig.Report) {
+	const rule = "C12.R9 group requests are split into one request per group"
+	fn := p.Func("protocol/describegroups", "(*Request).Split")
+	grp := p.Func("protocol/describegroups", "(*Request).Group")
+	if fn == nil || grp == nil {
+		r.Lost(rule, "protocol/describegroups.(*Request).Split / Group")
+		return
+	}
+	rs := returnShapes(grp)
+	recv := an.ParamName(grp.Params[0])
+	r.Check(len(rs) == 1 && clean(rs[0]) == recv+".Groups[0]", rule, "describegroups.Request.Group → the coordinator is looked up for the first group", p.Pos(grp.Pos()), "return r.Groups[0]", strings.Join(rs, " ;; "))
+	n := 0
+	var bad []string
+	an.EachInstr(fn, func(ins ssa.Instruction) {
+		st, ok := ins.(*ssa.Store)
+		if !ok {
+			return
+		}
+		fa, ok := st.Addr.(*ssa.FieldAddr)
+		if !ok || an.FieldName(fa.X.Type(), fa.Field) != "Groups" {
+			return
+		}
+		if _, fresh := fa.X.(*ssa.Alloc); !fresh {
+			return
+		}
+		n++
+		want := an.ParamName(fn.Params[0]) + ".Groups[idx(" + an.ParamName(fn.Params[0]) + ".Groups)]"
+		sl, isSlice := st.Val.(*ssa.Slice)
+		okOne := false
+		found := clean(an.ShapeCanon(st.Val))
+		if isSlice && sl.Low == nil && sl.High == nil {
+			if al, isAl := sl.X.(*ssa.Alloc); isAl {
+				if pt, isP := al.Type().Underlying().(*types.Pointer); isP {
+					if arr, isArr := pt.Elem().Underlying().(*types.Array); isArr && arr.Len() == 1 {
+						for _, ref := range *al.Referrers() {
+							if ia, isIA := ref.(*ssa.IndexAddr); isIA {
+								for _, r2 := range *ia.Referrers() {
+									if st2, isSt := r2.(*ssa.Store); isSt {
+										found = "[]string{" + clean(an.ShapeCanon(st2.Val)) + "}"
+										okOne = clean(an.ShapeCanon(st2.Val)) == want
+									}
+								}
+							}
+						}
+					}
+				}
+			}
+		}
+		if !okOne {
+			bad = append(bad, p.Pos(st.Pos())+": Groups = "+found)
+		}
+	})
+	r.Check(n > 0 && len(bad) == 0, rule, "describegroups.Request.Split → each sub-request names exactly the group of its iteration", p.Pos(fn.Pos()),
+		"for _, group := range r.Groups { &Request{Groups: []string{group}, …} }", strings.Join(bad, "; "))
 }
